@@ -106,7 +106,7 @@ Definition out_matches (o : call_out) (p : pobs) : bool :=
   match o, p with
   | ONotLeader _, PoNotLeader => true
   | OWaiting id, PoRegistered id' => id =? id'
-  | OReading _, PoStarted => true
+  | OReading _, PoStarted | OReading _, PoDropped | OWaiting _, PoDropped => true
   | _, _ => false
   end.
 Definition head_out (g : gstate rcmd rresp rsm) : call_out :=
@@ -124,8 +124,10 @@ Definition rstep (r : rstate) (e : oev) : rstate :=
   | OStart s =>
       {| r_g := gs g (GStart s); r_ok := r_ok r; r_served := set_served (r_served r) s 0; r_cmds := r_cmds r |}
   | OPropose s w c leader term o =>
-      let g' := gs g (GPropose s w c (VStatus leader term 0)) in
-      {| r_g := g'; r_ok := r_ok r && out_matches (head_out g') o; r_served := r_served r; r_cmds := (w, c) :: r_cmds r |}
+      let g1 := gs g (GPropose s w c (VStatus leader term 0)) in
+      (* raft refused the proposal: ProposeCommand removes the waiter again and returns the error *)
+      let g' := match o, head_out g1 with PoDropped, OWaiting id => gs g1 (GTimeout s id) | _, _ => g1 end in
+      {| r_g := g'; r_ok := r_ok r && out_matches (head_out g1) o; r_served := r_served r; r_cmds := (w, c) :: r_cmds r |}
   | ORead s w c leader term o =>
       let g' := gs g (GRead s w (VStatus leader term 0)) in
       {| r_g := g'; r_ok := r_ok r && out_matches (head_out g') o; r_served := r_served r; r_cmds := (w, c) :: r_cmds r |}
